@@ -11,13 +11,25 @@ use slotted_egraphs::*;
 
 /// everything observable, in the order the API returns it (nothing sorted, nothing canonicalised)
 pub fn transcript(ops: &[Op], rules: &[usize], iters: usize) -> String {
+    transcript_t(ops, rules, iters, None)
+}
+
+/// `texts`: the inserted terms as text (in insertion order) — they are then *parsed* in the replaying thread instead of being
+/// built from the abstract term
+pub fn transcript_t(ops: &[Op], rules: &[usize], iters: usize, texts: Option<&[String]>) -> String {
     let mut out = String::new();
     let mut eg: EGraph<Main> = EGraph::default();
     let mut tracked: Vec<AppliedId> = Vec::new();
+    let mut nadd = 0;
     for op in ops {
         match op {
             Op::Add(t) => {
-                let a = eg.add_expr(to_recexpr::<Main>(t));
+                let re = match texts {
+                    Some(tx) => RecExpr::<Main>::parse(&tx[nadd]).unwrap(),
+                    None => to_recexpr::<Main>(t),
+                };
+                nadd += 1;
+                let a = eg.add_expr(re);
                 out.push_str(&format!("add -> {:?}\n", a));
                 tracked.push(a);
             }
@@ -97,7 +109,38 @@ fn fnv(s: &str) -> u64 {
 }
 
 pub fn exec_repro(ops: Vec<Op>, rules: Vec<usize>, iters: usize, seed: u64, second_process: bool) -> Case {
-    let desc = format!("{} rules={}", enc_ops(&ops), rules.iter().map(|i| POOL[*i].0).collect::<Vec<_>>().join("."));
+    exec_repro_t(ops, rules, iters, seed, second_process, false)
+}
+
+/// all named slots of a history become `$f<N>` names (the spelling of fresh slots): the printed terms then mention numeric
+/// and fresh-style slots only
+fn fstyle(t: &ATerm) -> ATerm {
+    fn cf(f: &CField) -> CField {
+        let m = |c: u32| if c % 4 == 2 { 4 * (c / 4 + 3) + 1 } else { c };
+        match f {
+            CField::Slot(s) => CField::Slot(m(*s)),
+            CField::Bind(s, x) => CField::Bind(m(*s), Box::new(cf(x))),
+            x => x.clone(),
+        }
+    }
+    ATerm { v: t.v, fields: t.fields.iter().map(cf).collect(), children: t.children.iter().map(fstyle).collect() }
+}
+
+fn texts_of(ops: &[Op]) -> Vec<String> {
+    let terms: Vec<ATerm> = ops.iter().filter_map(|o| if let Op::Add(t) = o { Some(t.clone()) } else { None }).collect();
+    in_fresh_thread(move || {
+        intern_names();
+        terms.iter().map(|t| to_recexpr::<Main>(t).to_string()).collect::<Vec<String>>()
+    })
+    .unwrap_or_default()
+}
+
+/// `text`: the replicas parse the inserted terms from text (what a name denotes, and what parsing it does to the thread's
+/// slot table, must not depend on which thread parsed the same text first)
+pub fn exec_repro_t(ops: Vec<Op>, rules: Vec<usize>, iters: usize, seed: u64, second_process: bool, text: bool) -> Case {
+    let ops: Vec<Op> = if text { ops.into_iter().map(|o| match o { Op::Add(t) => Op::Add(fstyle(&t)), x => x }).collect() } else { ops };
+    let texts: Option<Vec<String>> = if text { Some(texts_of(&ops)) } else { None };
+    let desc = format!("{}{} rules={}", if text { "text " } else { "" }, enc_ops(&ops), rules.iter().map(|i| POOL[*i].0).collect::<Vec<_>>().join("."));
     let stop = std::sync::Arc::new(std::sync::atomic::AtomicBool::new(false));
     let noise_threads: Vec<_> = (0..4)
         .map(|k| {
@@ -107,7 +150,7 @@ pub fn exec_repro(ops: Vec<Op>, rules: Vec<usize>, iters: usize, seed: u64, seco
         .collect();
     let replicas: Vec<_> = (0..4)
         .map(|k| {
-            let (o, r) = (ops.clone(), rules.clone());
+            let (o, r, tx) = (ops.clone(), rules.clone(), texts.clone());
             std::thread::Builder::new()
                 .stack_size(64 << 20)
                 .spawn(move || {
@@ -116,7 +159,7 @@ pub fn exec_repro(ops: Vec<Op>, rules: Vec<usize>, iters: usize, seed: u64, seco
                     std::thread::sleep(std::time::Duration::from_micros(137 * k as u64));
                     guarded(move || {
                         intern_names();
-                        transcript(&o, &r, iters)
+                        transcript_t(&o, &r, iters, tx.as_deref())
                     })
                 })
                 .unwrap()
@@ -141,13 +184,13 @@ pub fn exec_repro(ops: Vec<Op>, rules: Vec<usize>, iters: usize, seed: u64, seco
             })
             .unwrap()
             .join();
-        let (o, r) = (ops.clone(), rules.clone());
+        let (o, r, tx) = (ops.clone(), rules.clone(), texts.clone());
         let late = std::thread::Builder::new()
             .stack_size(64 << 20)
             .spawn(move || {
                 guarded(move || {
                     intern_names();
-                    transcript(&o, &r, iters)
+                    transcript_t(&o, &r, iters, tx.as_deref())
                 })
             })
             .unwrap()
@@ -185,7 +228,7 @@ pub fn exec_repro(ops: Vec<Op>, rules: Vec<usize>, iters: usize, seed: u64, seco
             // the same history in a fresh process (other addresses, other allocation history)
             let exe = std::env::current_exe().unwrap();
             let out = std::process::Command::new(exe)
-                .args(["repro-child", "--replay", &format!("{iters}|{}|{}", rules.iter().map(|i| i.to_string()).collect::<Vec<_>>().join("."), enc_ops(&ops))])
+                .args(["repro-child", "--replay", &format!("{}{iters}|{}|{}", if text { "T" } else { "" }, rules.iter().map(|i| i.to_string()).collect::<Vec<_>>().join("."), enc_ops(&ops))])
                 .output();
             match out {
                 Ok(o) => {
@@ -205,12 +248,14 @@ pub fn exec_repro(ops: Vec<Op>, rules: Vec<usize>, iters: usize, seed: u64, seco
 
 pub fn child(arg: &str) {
     let parts: Vec<&str> = arg.splitn(3, '|').collect();
-    let iters: usize = parts[0].parse().unwrap();
+    let text = parts[0].starts_with('T');
+    let iters: usize = parts[0].trim_start_matches('T').parse().unwrap();
     let rules: Vec<usize> = if parts[1].is_empty() { vec![] } else { parts[1].split('.').map(|x| x.parse().unwrap()).collect() };
     let ops = parse_ops(parts[2]);
+    let texts: Option<Vec<String>> = if text { Some(texts_of(&ops)) } else { None };
     let r = in_fresh_thread(move || {
         intern_names();
-        transcript(&ops, &rules, iters)
+        transcript_t(&ops, &rules, iters, texts.as_deref())
     });
     match r {
         Ok(t) => println!("{:016x}", fnv(&t)),
@@ -256,7 +301,12 @@ pub fn run(ctx: &mut Ctx) {
             ops = ops.into_iter().map(|o| match o { Op::Add(t) => Op::Add(strip_symbols(&t)), x => x }).collect();
         }
         let symbols = ops.iter().any(|o| matches!(o, Op::Add(t) if has_symbol(t)));
-        let mut c = exec_repro(ops, idx, iters, seed, second && k % 4 == 0);
+        // a third of the symbol-free histories are replayed from text, with `$f<N>` names for all named slots
+        let text = k % 2 == 0 && rng.chance(2, 3);
+        let mut c = exec_repro_t(ops, idx, iters, seed, second && k % 4 == 0, text);
+        if text {
+            c.tags.push("t:from-text".into());
+        }
         if symbols {
             c.tags.push("t:symbol-payloads".into());
         }
